@@ -1,7 +1,7 @@
 #!/bin/sh
 # usage: tools/verify_seed.sh <PROP> <k>   -- confirm a seeded change: applies to /repo HEAD in a scratch worktree,
 # suite still at baseline, demo fails with the change and passes without. Prints a one-line JSON verdict.
-P="$1"; K="$2"; D=/tmp/seed_out/$P/$K
+P="$1"; K="$2"; D=${SEED_ROOT:-/tmp/seed_out}/$P/$K
 WT=$(mktemp -d /tmp/seedverify-XXXXXX); rmdir $WT
 git -C /repo worktree add -q --detach $WT HEAD || exit 3
 mkdir -p $WT/.tmp
